@@ -325,6 +325,12 @@ def merge_workload(rng, io=0):
     keys = ["%02x%02x" % (97 + j, 97 + j) for j in range(rng.choice([6, 9]))]
     ops = [engine.open_line("d", cfg)]
     seed = rng.randrange(1000)
+    if rng.random() < 0.6:
+        # write-once keys: live records in the OLDEST files too, so that (Merge visiting the files in Go map order)
+        # a rewritten file k holds live records of original files other than k
+        for j in range(rng.choice([8, 14])):
+            seed += 1
+            ops.append("put %02x%02x%02x p%d:%d" % (119, 97 + j, 97 + j, seed, rng.choice([400, 600, 900])))
     for r in range(rng.choice([2, 3])):
         for k in keys:
             seed += 1
